@@ -473,6 +473,7 @@ Theorem pool_is_first_uses ss p is_ : add_all [] ss = (p, is_) -> p = first_uses
 Proof. intros H. destruct (add_all_spec _ _ _ _ H) as (A & _). exact A. Qed.
 
 (* ------------------------------------------------------------------ encode_ignores_padding *)
+Local Open Scope N_scope.
 Lemma le_bytes_low k : forall v w, v mod 256 ^ N.of_nat k = w mod 256 ^ N.of_nat k -> le_bytes k v = le_bytes k w.
 Proof.
   induction k as [|k IH]; intros v w H; [reflexivity|].
